@@ -1,9 +1,10 @@
 import CelmaVerif.Lemmas.Groups
+import CelmaVerif.Model.ProgArgs.GroupsCross
 /-
   The cross check between the members of an argument group when an argument is defined.
 
-  NOT part of the validated model files: `checkArgMix`, `crossCheck` and `groupAddArgument` below are
-  a small model, written for this file only, of
+  `checkArgMix`, `crossCheck` and `groupAddArgument` (since moved to Model/ProgArgs/GroupsCross.lean and
+  validated against the real Groups by the `pa gdef` operation of the prog_args harness) are a model of
     * `ArgumentContainer::checkArgMix`            (detail/argument_container.cpp, the two loops),
     * `Groups::crossCheckArguments( mod_handler)` (groups.cpp: every other member),
     * `Handler::internAddArgument`                (handler.cpp: `mArguments.addArgument`, then, when the
@@ -13,34 +14,6 @@ import CelmaVerif.Lemmas.Groups
 -/
 namespace CelmaVerif.ProgArgs
 open CelmaVerif CelmaVerif.Keys
-
-/-- inner loop of `checkArgMix`: one key of the other container against every own key -/
-def checkArgMixInner (o : Key) : List Key → Res Unit
-  | [] => pure ()
-  | a :: rest =>
-    if a.eq o then .throw .invalid_argument             -- "is already used by"
-    else if a.mismatch o then .throw .invalid_argument   -- "has a mismatch with"
-    else checkArgMixInner o rest
-
-/-- `ArgumentContainer::checkArgMix( ownName, otherName, otherAH)` -/
-def checkArgMix (own : List Key) : List Key → Res Unit
-  | [] => pure ()
-  | o :: rest => do checkArgMixInner o own; checkArgMix own rest
-
-/-- `Groups::crossCheckArguments( mod_handler)`: the modified handler against every other member -/
-def crossCheck (own : List Key) : List (List Key) → Res Unit
-  | [] => pure ()
-  | t :: rest => do checkArgMix own t; crossCheck own rest
-
-/-- `Handler::internAddArgument` of a handler that is used by a group: the key goes into the
-    handler's own table (refused there if it clashes with an own key), then the group cross-checks
-    the handler against all other members.  An exception leaves the group unusable for this key:
-    the definition is refused. -/
-def groupAddArgument {α : Type} (own : List (Key × α)) (others : List (List Key)) (k : Key) (a : α) :
-    Res (List (Key × α)) := do
-  let t ← addArgument own k a
-  crossCheck (t.map (·.1)) others
-  pure t
 
 theorem checkArgMixInner_cases (o : Key) (own : List Key) :
     (checkArgMixInner o own = .ok () ∧ ∀ a ∈ own, ¬ a.Clash o) ∨
